@@ -228,10 +228,10 @@ def _gen_lagrange(rng, maxn=5):
 
 def generate(rng, tier, scale=1):
     quick = tier == "quick"
-    n_expr = (4000 if quick else 40000) * scale
-    n_laws = (1000 if quick else 8000) * scale
-    n_eq = (800 if quick else 6000) * scale
-    n_lag = (600 if quick else 5000) * scale
+    n_expr = (4000 if quick else 100000) * scale
+    n_laws = (1000 if quick else 20000) * scale
+    n_eq = (800 if quick else 15000) * scale
+    n_lag = (600 if quick else 12000) * scale
     depth = 3 if quick else 4
     cases = []
     if scale == 1:
